@@ -165,6 +165,7 @@ class Tr:
         self.tags = {}
         self.counter = 0
         self.tmp = 0
+        self.rename_keywords()
         self.apply_aliases()
         self.mutated = self._mutated_fields()
         # the result type of every term
@@ -981,7 +982,14 @@ class Tr:
         return "(fuel : Nat) " if self.recursive else ""
 
     def header_generic(self):
-        return "{α : Type} " if self.generic else ""
+        # spec["type_params"]: further type variables (e.g. the state of the file system, given with its operations)
+        return ("{α : Type} " if self.generic else "") + "".join("{%s : Type} " % tp for tp in self.spec.get("type_params", []))
+
+    def loop_extras(self, vs, env):
+        """spec["loop_extras"]: loop bodies name parameters that occur only in the spec's call / condition texts"""
+        if not self.spec.get("loop_extras"):
+            return vs
+        return vs + [v for v in self.spec.get("extra_params", {}) if v in env and v not in vs]
 
     def make_join(self, rest, env, k, loop):
         """auxiliary definition for `rest` (the code after a branching statement); returns call-lines factory"""
@@ -1154,7 +1162,7 @@ class Tr:
         if not self.has_return(st.body):
             # the loop as a state transformer: returns the final values of the variables it assigns
             state = [v for v in self.assigned_vars(st.body, env) if v not in add]
-            vs = self.live_vars([st], env)
+            vs = self.loop_extras(self.live_vars([st], env), env)
             tup, tty = self.state_tuple(state, env)
             rec = lambda e: [f"{nm} {self.callpre()}{' '.join(vs)} {it}"]  # noqa
             done = lambda e: [f"pure {tup}"]  # noqa
@@ -1169,7 +1177,7 @@ class Tr:
         # a loop that can `return`: continuation-passing form, the code after the loop is part of it
         if loop is not None:
             raise Untranslatable("a loop with `return` nested in another loop")
-        vs = self.live_vars([st] + rest, env)
+        vs = self.loop_extras(self.live_vars([st] + rest, env), env)
         has_break = any(isinstance(n, ast.Break) for n in ast.walk(st))
         if has_break and rest:
             after = self.make_join(rest, env, k, loop)
@@ -1203,7 +1211,7 @@ class Tr:
             cf = f"(Int.toNat {self.as_int(cf0, tf)} + 1)"
         if not self.has_return(st.body):
             state = self.assigned_vars(st.body, env)
-            vs = self.live_vars([st], env)
+            vs = self.loop_extras(self.live_vars([st], env), env)
             tup, tty = self.state_tuple(state, env)
             rec = lambda e: [f"{nm} {self.callpre()}{' '.join(vs)} wf"]  # noqa
             done = lambda e: [f"pure {tup}"]  # noqa
@@ -1217,7 +1225,7 @@ class Tr:
             return bf + [f"let {tup} ← {nm} {self.callpre()}{' '.join(vs)} {cf}"] + self.T(rest, env, k, loop)
         if loop is not None:
             raise Untranslatable("a loop with `return` nested in another loop")
-        vs = self.live_vars([st] + rest, env)
+        vs = self.loop_extras(self.live_vars([st] + rest, env), env)
         after = self.make_join(rest, env, k, loop) if rest else (lambda e: k(e))
         rec = lambda e: [f"{nm} {self.callpre()}{' '.join(vs)} wf"]  # noqa
         inner = self.branch(st.test, env, lambda: self.T(list(st.body), env, rec, (rec, after)), lambda: after(env))
@@ -1249,6 +1257,31 @@ class Tr:
         for st in out:
             ast.fix_missing_locations(st)
         return out
+
+    LEAN_KEYWORDS = {"where", "at", "from", "have", "show", "then", "fun", "end", "open", "meta", "instance", "structure", "namespace",
+                     "section", "variable", "theorem", "example", "initialize", "deriving", "mutual", "macro", "syntax", "do", "let"}
+
+    def rename_keywords(self):
+        """Python names that are Lean keywords get a trailing underscore (parameters, locals, and the keys of the spec's
+        `params` / `locals` tables; Lean texts given in the spec use the new name)"""
+        kw = self.LEAN_KEYWORDS
+        ren = lambda n: n + "_" if n in kw else n  # noqa
+
+        class Rn(ast.NodeTransformer):
+            def visit_Name(self, node):
+                node.id = ren(node.id)
+                return node
+
+            def visit_arg(self, node):
+                node.arg = ren(node.arg)
+                return node
+
+        self.fn = Rn().visit(self.fn)
+        self.params = {ren(k): v for k, v in self.params.items()}
+        self.ignore_params = {ren(k) for k in self.ignore_params}
+        if "locals" in self.spec:
+            self.spec = dict(self.spec)
+            self.spec["locals"] = {ren(k): v for k, v in self.spec["locals"].items()}
 
     def apply_aliases(self):
         """spec["alias"]: attribute chains of other objects read as flat fields / parameters, e.g.
@@ -1505,6 +1538,29 @@ def driver_source(specs, status, src_root):
                                ' (fun g => match g with | none => Except.error Err.other | some k => '
                                'if ((fromJ (argAt args 12)) : List Nat).contains k then Except.error Err.other '
                                'else Except.ok ((((fromJ (argAt args 13)) : List (Nat × Nat)).lookup k))) ' + me.replace("K", "14") + ")")
+            continue
+        if spec.get("group") == "Spill":
+            # stored entries are integers (even: a quantity, odd: the file `2 n + 1` = "<id>-<n>.npy"), the disk a list of
+            # (file, content) pairs; `nbytes` / "is a masked array" come as tables from the live objects
+            imports.append(f"import FinamModel.Translated.{spec['lean']}")
+            isf = "(fun (x : Int) => x % 2 == 1)"
+            nb = "(fun (x : Int) => (((fromJ (argAt args K)) : List (Int × Int)).lookup x).getD 0)"
+            rm = ("(fun (fs : List (Int × Int)) (x : Int) => if fs.any (fun p => p.1 == x) then Except.ok (fs.filter (fun p => p.1 != x)) "
+                  "else Except.error Err.other)")
+            if spec["lean"] == "Output__pack":
+                cases.append('  | "Output__pack" => toJ (Tr.Output__pack (α := Int) (φ := List (Int × Int)) (fromJ (argAt args 0)) (fromJ (argAt args 1)) '
+                             '(fromJ (argAt args 2)) (fromJ (argAt args 3)) (fromJ (argAt args 4)) ' + nb.replace("K", "5")
+                             + ' (fun x => ((fromJ (argAt args 6)) : List Int).contains x) (fun n _ => 2 * n + 1) '
+                               '(fun fs fn d => Except.ok (fs.filter (fun p => p.1 != fn) ++ [(fn, d)])))')
+            elif spec["lean"] == "Output__unpack":
+                cases.append('  | "Output__unpack" => toJ (Tr.Output__unpack (α := Int) (φ := List (Int × Int)) (fromJ (argAt args 0)) (fromJ (argAt args 1)) '
+                             + isf + ' (fun fs x => match fs.lookup x with | some d => Except.ok d | none => Except.error Err.other))')
+            elif spec["lean"] == "Output__clear_data_files":
+                cases.append('  | "Output__clear_data_files" => toJ (Tr.Output__clear_data_files (α := Int) (φ := List (Int × Int)) '
+                             + " ".join(f"(fromJ (argAt args {i}))" for i in range(6)) + " " + isf + " " + nb.replace("K", "6") + " " + rm + ")")
+            elif spec["lean"] == "Output_finalize":
+                cases.append('  | "Output_finalize" => toJ (Tr.Output_finalize (α := Int) (φ := List (Int × Int)) (fromJ (argAt args 0)) '
+                             '(fromJ (argAt args 1)) ' + isf + " " + rm + ")")
             continue
         if spec.get("group") == "Exchange":
             imports.append(f"import FinamModel.Translated.{spec['lean']}")
